@@ -6,6 +6,11 @@
 (* what must be invariant: everything for every class, except that a        *)
 (* permutation of the samples (which must permute the scores identically)  *)
 (* is only demanded of the classes that do not depend on the sample order. *)
+(* Relations: transpose (all dimensions reversed), transpose2d (a matrix   *)
+(* stored feature x sample), permute_features, permute_samples, split_vars,*)
+(* split_list, shuffle_list_samples (second list element stores the same   *)
+(* samples in another order), list_swap_sample_dims (two sample            *)
+(* dimensions, held in another relative order by the second list element). *)
 (***************************************************************************)
 EXTENDS Naturals, FiniteSets, TLC
 CONSTANTS Classes, Relations, Names
